@@ -234,12 +234,28 @@ def lean_build(targets=None):
 
 
 def lean_driver():
+    """Path of a PRIVATE copy of the Lean driver executable (content-addressed), so that a concurrent
+    `lake build` that re-links .lake/build/bin/driver cannot pull the binary away under a running check."""
     p = os.path.join(LEAN, ".lake", "build", "bin", "driver")
-    if not os.path.exists(p):
-        ok, out = lean_build()
-        if not ok:
-            raise BuildError("lake build failed", out[-6000:])
-    return p
+    with Lock("lake"):
+        rc, out, err = run(["lake", "build", "driver"], cwd=LEAN, timeout=3600)
+        if rc != 0 or not os.path.exists(p):
+            raise BuildError("lake build driver failed", (out + err)[-6000:])
+        with open(p, "rb") as f:
+            h = hashlib.sha256(f.read()).hexdigest()[:16]
+        priv = os.path.join(CACHE, "driver-" + h)
+        if not os.path.exists(priv):
+            shutil.copy2(p, priv + ".tmp%d" % os.getpid())
+            os.rename(priv + ".tmp%d" % os.getpid(), priv)
+            # keep the newest few copies only
+            olds = sorted([os.path.join(CACHE, f) for f in os.listdir(CACHE) if f.startswith("driver-") and ".tmp" not in f],
+                          key=os.path.getmtime, reverse=True)
+            for o in olds[6:]:
+                try:
+                    os.unlink(o)
+                except OSError:
+                    pass
+    return priv
 
 
 _COMMENT_BLOCK = re.compile(r"/-.*?-/", re.S)
